@@ -50,11 +50,11 @@ CLAIMED = {
          "Lean 4 theorem (table invariant threaded through all name sites) + differential correspondence", "9/C07"),
  "C12": ("observers_total_partial / parsed_then_observed (no modelled observer can panic on any packet), display_never_errs, try_from_iff (String::try_from fails exactly on invalid UTF-8), display_valid_utf8, long_attributes_err_iff proved; partial: std::fmt internals and the lossy text are not modelled, the harness observes them on sampled inputs.",
          "Lean 4 theorem (totality of the modelled observers) + differential correspondence under catch_unwind", "9/C12"),
- "C16": ("into_owned_eq for names, values, RDATA, records, questions, packets (hence identical bytes from both serialisers), rr_eq_hash (records equal under the library's == feed the hasher identically), instance_eq_hash (equal instance information hashes equally for every insertion order: sort of permutation-equal duplicate-free lists), hash_ignores_what_eq_ignores proved; the 40 per-type into_owned bodies are tied to the model by the correspondence.",
+ "C16": ("into_owned_fieldwise (TieEnv: every field of each of the 34 hand-written into_owned bodies is copied from the field of the same name, read from the sources on every run - this is what gives the identity functions of the model a meaning); name_hash_iff / rr_hash_iff_of_WF (the hash feed separates exactly what == separates); fromRecords_eq_hash (discovered instances need no side condition); into_owned_eq for names, values, RDATA, records, questions, packets (hence identical bytes from both serialisers), rr_eq_hash (records equal under the library's == feed the hasher identically), instance_eq_hash (equal instance information hashes equally for every insertion order: sort of permutation-equal duplicate-free lists), hash_ignores_what_eq_ignores proved; the 40 per-type into_owned bodies are tied to the model by the correspondence.",
          "Lean 4 theorem (field-wise identity, permutation-invariant hash feed) + differential correspondence", "9/C16"),
- "C14": ("pipeline_no_panic / pipeline_total (responder, discovery listener and one-shot resolver steps return a value for every datagram, store and clock; buildG_ne_panic for every packet), store_usable (the store invariant survives every datagram), reply_parseable (every reply produced from a store of well-formed records parses back to the packet build_reply assembled) proved; partial: threads, sockets and RwLock poisoning are consequences of a panic and are only exercised (hook pipelines for all generated datagrams, loopback multicast for a sample).",
+ "C14": ("responder_loop_survives (with the send policy read from both responder loops - a failed send_to is logged - no datagram, store, clock value or behaviour of the network ends or panics the loop; responder_loop_propagate_ends: with `?` every unsendable reply ends it, the defect repaired by fix 4185208 and replayed by the live runs); pipeline_no_panic / pipeline_total (responder, discovery listener and one-shot resolver steps return a value for every datagram, store and clock; buildG_ne_panic for every packet), store_usable (the store invariant survives every datagram), reply_parseable (every reply produced from a store of well-formed records parses back to the packet build_reply assembled) proved; partial: threads, sockets and RwLock poisoning are consequences of a panic and are only exercised (hook pipelines for all generated datagrams, loopback multicast for a sample).",
          "Lean 4 theorem (totality of the handling pipeline + invariant preservation) + differential correspondence + live socket run", "9/C14"),
- "C15": ("discovery_faithful (end to end: announce -> compressed wire -> parse -> ingest -> known returns exactly the advertised instance until the TTL elapses and nothing afterwards), from_records_of_into_records, ingest_filter / ingest_ignores (own, service-name and non-subdomain records are never cached), escape_unescape, empty_key_indistinguishable proved; maps containing the empty key are the recorded known finding empty-attribute-key.",
+ "C15": ("reports per owner (C15Reports: what each response puts on the on_discovery channel is one instance per owner name, built from that owner's records only - mem_reports_iff, reportOf_local, report_faithful_to_owner, two_instances_discovered_faithfully; reportsMerged_merges is the defect repaired by fix 3098c07); discovery_faithful (end to end: announce -> compressed wire -> parse -> ingest -> known returns exactly the advertised instance until the TTL elapses and nothing afterwards), from_records_of_into_records, ingest_filter / ingest_ignores (own, service-name and non-subdomain records are never cached), escape_unescape, empty_key_indistinguishable proved; maps containing the empty key are the recorded known finding empty-attribute-key.",
          "Lean 4 theorem (composition of the wire, store and TXT round trips) + differential correspondence", "9/C15"),
 }
 PENDING = {f"C{n:02d}": "check not built yet (implementation of DESIGN.md in progress); will be claimed at level proof" for n in range(1, 21)}
